@@ -325,9 +325,12 @@ let status_s = function CheckMate -> "M" | Draw -> "D" | Check -> "C" | Running 
 let board_fields (b : board) =
   Printf.sprintf "%s\t%s\t%s\t%s\t%s" (string_of_bytes (api_write_fen b)) (hn (api_zobrist b)) (hn b.b_pinned) (hn (api_diff b.b_checkers b.b_pinned)) (hn b.b_zob)
 
-let check_chess line f =
+let rec check_chess line f =
   match f with
   | ["PO"; xf; disp; legals; lens; chk; st; zob; pinned; checkers; mz; fresh] ->
+    (* the implementation could not read back the FEN it wrote for a board it holds: judged without any model *)
+    if String.length fresh >= 9 && String.sub fresh 0 9 = "PARSEFAIL" then
+      cmp_line "POW" line [("spec:fen-writer: the text the board writes for itself parses back (write then parse)", "parses: " ^ disp, fresh)];
     (match parse_model xf with
      | None -> cmp_line "PO" line [("model:position-rejected-by-model-parser", "accepted", "rejected")]
      | Some b ->
@@ -348,6 +351,14 @@ let check_chess line f =
           ("spec:piece-hash-equals-from-scratch", hn b.b_zob, norm_hex mz);
           ("spec:fen-writer", string_of_bytes (api_write_fen b), disp);
           ("spec:moved-board-indistinguishable-from-reparsed(legals,check,hash,text,debug,eq)", "111111", fresh)])
+  | ["MV"; xf; mv; xf2; zob; pinned; checkers; mz; agree; zmut; zinto] ->
+    check_chess (String.concat "\t" ["MV"; xf; mv; xf2; zob; pinned; checkers; mz; agree]) ["MV"; xf; mv; xf2; zob; pinned; checkers; mz; agree];
+    if xf2 <> "REFUSED" then
+      (match parse_model xf2 with
+       | Some b2 ->
+         cmp_line "MVH" line [("spec:hash of the move_mut result = from-scratch hash", hn (api_zobrist b2), norm_hex zmut);
+                              ("spec:hash of the move_into result (foreign output buffer) = from-scratch hash", hn (api_zobrist b2), norm_hex zinto)]
+       | None -> ())
   | ["MV"; xf; mv; xf2; zob; pinned; checkers; mz; agree] ->
     (match parse_model xf with
      | None -> cmp_line "MV" line [("model:position-rejected-by-model-parser", "accepted", "rejected")]
